@@ -344,6 +344,29 @@ func (rule *RuleAction) VisitStep(n *Step) error {
 }
 
 // Parse {owner}/{repo}@{ref} or {owner}/{repo}/{path}@{ref}
+// findPopularAction finds metadata of the action in the popular actions data set. Owner name and repository name of
+// actions are case insensitive.
+func findPopularAction(spec string) (*ActionMetadata, bool) {
+	if m, ok := PopularActions[spec]; ok {
+		return m, true
+	}
+	i := strings.IndexByte(spec, '@')
+	if i < 0 {
+		return nil, false
+	}
+	name, ref := spec[:i], spec[i:]
+	found := ""
+	for k := range PopularActions {
+		if strings.HasSuffix(k, ref) && strings.EqualFold(strings.TrimSuffix(k, ref), name) && (found == "" || k < found) {
+			found = k
+		}
+	}
+	if found == "" {
+		return nil, false
+	}
+	return PopularActions[found], true
+}
+
 func (rule *RuleAction) checkRepoAction(spec string, exec *ExecAction) {
 	s := spec
 	idx := strings.IndexRune(s, '@')
@@ -372,7 +395,7 @@ func (rule *RuleAction) checkRepoAction(spec string, exec *ExecAction) {
 		rule.invalidActionFormat(exec.Uses.Pos, spec, "owner and repo and ref should not be empty")
 	}
 
-	meta, ok := PopularActions[spec]
+	meta, ok := findPopularAction(spec)
 	if !ok {
 		if _, ok := OutdatedPopularActionSpecs[spec]; ok {
 			rule.Errorf(exec.Uses.Pos, "the runner of %q action is too old to run on GitHub Actions. update the action's version to fix this issue", spec)
